@@ -147,6 +147,26 @@ def _pinned(ctx, v):
     return tot
 
 
+def _zero_on_path(ctx, v):
+    """the path has established that the linear term v is 0: pinned leaf by leaf, or a positive multiple of it (`int bytes = depth * 8; if (bytes)`) was tested"""
+    if _pinned(ctx, v) == 0:
+        return True
+    from ..interp import Lin, Term, vkey
+    l = Lin.of(v)
+    if l is None or l.c != 0:
+        return False
+    for m in (1, 2, 4, 8, 16):
+        s = l.scale(m)
+        b = ctx.bounds.get(vkey(s))
+        if b and b[0] == 0 and b[1] == 0:
+            return True
+        for op, val in (('!=', False), ('==', True)):
+            for args in ((s, 0), (0, s)):
+                if ctx.facts.get(vkey(Term(op, *args))) is val:
+                    return True
+    return False
+
+
 def _bytes_minus_slots(ctx, tr, text, slots):
     """`text` (an integer or a rendered symbolic argument of the trace) minus 8*slots, as an integer if the path decides it, else a term; None: unreadable"""
     from ..interp import Lin
@@ -221,7 +241,7 @@ def jump_obligations(rep, rule, key, ctx, tr, where, jumps):
         if nd[i] is None:
             rep.undecided(rule, k, '`depth` at the jump `%s` was not recorded' % n[1], where=where)
             continue
-        if _pinned(ctx, nd[i]) == 0:
+        if _zero_on_path(ctx, nd[i]):
             rep.ob(rule, k, True, '', where=where)
             continue
         if i > 0 and nodes[i - 1][0] == 'ins' and isinstance(stack_effect(nodes[i - 1][1])[0], tuple):
@@ -1122,7 +1142,7 @@ def r031(P, rep, cat=None):
 
 
 def r035(P, rep):
-    rep.rule('R03.5', 'name lookup walks the scope chain from the innermost scope outward and returns the first hit, per name space (vars vs tags); insertions go into the innermost scope\'s own table; a struct/union definition only ever completes a tag of the innermost scope', floor=8)
+    rep.rule('R03.5', 'name lookup walks the scope chain from the innermost scope outward and returns the first hit, per name space (vars vs tags); insertions go into the innermost scope\'s own table; a struct/union definition only ever completes a tag of the innermost scope, and the declaration `struct T;` finds or enters T in the innermost scope only', floor=8)
     pu = P.unit('parse.c')
     for f in ('find_var', 'find_tag', 'push_scope', 'push_tag_scope', 'struct_union_decl', 'enter_scope', 'leave_scope'):
         if f not in pu.functions:
@@ -1217,15 +1237,57 @@ def r035(P, rep):
     from ..lib_parse import TokenModel
     tm = TokenModel(P, pu, ['struct_union_decl'], extra_opaque=['attribute_list', 'struct_members', 'find_tag', 'push_tag_scope', 'hashmap_get2', 'struct_type', 'copy_type'],
                     globals_={'scope': lambda ctx: Obj('Scope', lazy=True, label='scope')})
+    if ';' not in tm.keys:
+        tm.keys.insert(0, ';')        # `struct T ;` is a form of its own (C11 6.7.2.3p7) whether or not the parser looks for it
     it = tm.interp()
     from ..interp import _Ref, VarPlace
+    from ..lib_parse import spelled
     where = 'parse.c:%d' % pu.fn('struct_union_decl').line
-    seen = n_tagged = 0
-    for ctx, out in it.explore('struct_union_decl', lambda ctx: [_Ref(VarPlace({'rest': None}, 'rest')), tm.token('tok')]):
+    seen = n_tagged = n_ref = 0
+
+    def mk_args(ctx):
+        ctx.c03_rest = {'rest': None}
+        return [_Ref(VarPlace(ctx.c03_rest, 'rest')), tm.token('tok')]
+
+    def one_obj(v):
+        v = it.settle(v) if isinstance(v, View) else v
+        if isinstance(v, View):
+            objs = [c for c in v.cell.cands if isinstance(c, Obj)]
+            v = objs[0] if len(objs) == 1 else v
+        return v
+    for ctx, out in it.explore('struct_union_decl', mk_args):
         if out[0] != 'ret':
             continue
         names = [e[1] for e in ctx.events if e[0] == 'call']
         if 'struct_members' not in names:
+            # `struct T` without a member list. When the next token is `;` the declaration is `struct T;`: it declares T as a tag of the innermost
+            # scope, hiding a struct T of an enclosing scope (C11 6.7.2.3p7), so the type it answers with is one found in / entered into the
+            # innermost tag table, never one found by the walk over all scopes.
+            calls = [e for e in ctx.events if e[0] == 'call']
+            walks = [e for e in calls if e[1] == 'find_tag']
+            inner_looks = [e for e in calls if e[1] == 'hashmap_get2' and getattr(e[2][0], 'label', None) == 'scope.tags']
+            if not (walks or inner_looks or 'push_tag_scope' in names):
+                continue            # no tag
+            n_ref += 1
+            k = 'parse.c:struct_union_decl:tag-declaration-declares-in-innermost-scope'
+            after = one_obj(ctx.c03_rest.get('rest'))
+            sp = spelled(it, after) if isinstance(after, Obj) else None
+            if not isinstance(after, Obj):
+                rep.undecided('R03.5', k, 'the token the parser continues with after `struct T` is not readable (%r)' % (after,), where=where)
+                continue
+            if sp is not None and ';' not in sp:
+                rep.ob('R03.5', k, True, '', where=where)      # established: not the form `struct T ;`
+                continue
+            ret = one_obj(out[1])
+            from_walk = False
+            for e in walks:
+                r = one_obj(e[4])
+                if r is ret and (isinstance(r, Obj) or (isinstance(r, Sym) and 0 in ctx.neq.get(r.key(), ()))):
+                    from_walk = True
+            rep.ob('R03.5', k, not from_walk,
+                   'on a path where the token after `struct T` can be `;` the parser answers with the type find_tag found in ANY enclosing scope: the declaration `struct T;` in a block declares a new incomplete '
+                   'type T of that block, distinct from a struct T of an enclosing scope (C11 6.7.2.3p7; `struct T { int a; }; void f(void) { struct T; struct T *p; struct T { char c[100]; }; ... sizeof(*p) }` '
+                   'is 100, here p points to the outer type and it is 4)', where=where, facts={'calls': names})
             continue
         seen += 1
         i = names.index('struct_members')
@@ -1259,6 +1321,8 @@ def r035(P, rep):
         rep.undecided('R03.5', 'parse.c:struct_union_decl', 'no path reaches struct_members')
     elif n_tagged == 0:
         rep.undecided('R03.5', 'parse.c:struct_union_decl:tagged-definition', 'no path that parses a member list registers or looks up a tag', where=where)
+    if n_ref == 0:
+        rep.undecided('R03.5', 'parse.c:struct_union_decl:tag-declaration-declares-in-innermost-scope', 'no path of struct_union_decl handles a tag without a member list', where=where)
 
 
 # ------------------------------------------------- point of declaration (C11 6.2.1p7) ---
@@ -2035,6 +2099,34 @@ def r036(P, rep, bound_decided=False):
                '%s does not return a constant-initialised function-static that is incremented exactly once per call: two constructs could get the same label' % fn, where='%s:%d' % (u.name, fd.line))
 
 
+DEPTH_RULE = 'R03.15'
+# concrete call expressions for DEPTH_RULE (arguments in registers, in memory, long double slots, padding, a struct copied to the stack, a hidden
+# result pointer), at both parities of `depth`
+DEPTH_CALLS = [(['int', 'int'], 'int', 0), (['int', 'double', 'ldouble'], 'int', 1), (['long'] * 7 + ['ldouble', 'int'], 'int', 0),
+               (['s_l3', 'ldouble'] + ['long'] * 7, 's_l3', 1), (['double'] * 9, 'ldouble', 0)]
+
+
+def r03f_depth(cg, P, rep):
+    """`depth` is what gen_jump releases the stack from and what gen_label records: at every hand-off of a child to the generator (the child may
+    contain the break/continue/goto or the label), at every record and at every release it equals the slots the arm has really pushed"""
+    from .. import lib_c03depth as D
+    from . import c20
+    rep.rule(DEPTH_RULE, 'a jump out of a statement expression restores the stack height of its target from `depth`: in every arm of gen_expr / gen_addr / gen_stmt and in call expressions, whenever a child '
+                         '(operand, argument, sub-statement) is handed to the generator, a label records `8*depth`, or a jump releases `8*depth - <record>`, the emitted code of the arm has moved %rsp down by '
+                         'exactly 8 * (depth - depth at entry of the arm) bytes, on every path of the generator and of the emitted code\'s own jumps (C20 R20.3 compares the two only at the end of an arm)', floor=80)
+    handled = c20.expr_kinds_handled(cg)
+    ahandled = c20.expr_kinds_handled(cg, 'gen_addr')
+    if len(handled) < 30 or len(ahandled) < 4:
+        raise AnalysisBroken('gen_expr / gen_addr: only %d / %d node kinds recognised in their switches' % (len(handled), len(ahandled)))
+    plan = [('gen_expr', k, c20.preset(cg, k)) for k in cg.node_kinds if k in handled and k not in c20.STMT_KINDS and k != 'ND_FUNCALL']
+    plan += [('gen_addr', k, c20.preset(cg, k)) for k in cg.node_kinds if k in ahandled and k != 'ND_FUNCALL']
+    plan += [('gen_stmt', k, c20.preset_stmt(cg, k)) for k in c20.STMT_KINDS]
+    col = D.Collector()
+    D.run_kinds(cg, col, plan)
+    D.run_calls(cg, P, col, DEPTH_CALLS)
+    col.issue(rep, DEPTH_RULE)
+
+
 def run(P, rep, tier):
     cg = wrap(CG(P))
     rep.explanation = ('Control skeletons: gen_stmt/gen_expr are abstractly interpreted per statement / short-circuit form, the emitted templates are executed by the '
@@ -2050,9 +2142,11 @@ def run(P, rep, tier):
                        'R03.14 follows each case bound stored in the node back through the calls of the path to the folded constant and the type operands of those calls: a conversion is allowed only to a type '
                        'that has at least int\'s size on that path (the promoted type), never to the controlling expression\'s own char/short/_Bool type. R03.8 also requires every completed declarator '
                        '(objects, typedefs, block-scope `extern`, function declarations without body) to leave the identifier bound in the innermost scope (entered there, found there, or the path has '
-                       'established that the innermost scope is the file scope); R03.5 requires a struct/union tag to be in the innermost tag table while its member list is parsed.')
+                       'established that the innermost scope is the file scope); R03.5 requires a struct/union tag to be in the innermost tag table while its member list is parsed. '
+                       'R03.15 re-explores every arm of gen_expr / gen_addr / gen_stmt (abstract node per kind) and concrete call expressions with the value of `depth` recorded at every emitted line and every hand-off of a child, '
+                       'follows the emitted code\'s own jumps with the %rsp displacement of each instruction, and compares the two at every child, label record and release.')
     rep.assumptions += ['children and sub-statements satisfy their contracts (structural induction)', 'the order/placement obligations of R03.3 accept either NaN treatment of a floating truth test; the NaN treatment itself is R03.13']
-    rep.assumptions += ['`depth` is the number of 8-byte slots the unfinished enclosing expressions have pushed (C20 R20.3); a goto/break/continue emitted while `depth` is 0 needs no release because '
+    rep.assumptions += ['`depth` is the number of 8-byte slots the unfinished enclosing expressions have pushed: by induction over R03.15 (each arm hands its children a `depth` that has grown by what the arm itself has pushed) and C20 R20.3 / R20.1 (arms and children are balanced); a goto/break/continue emitted while `depth` is 0 needs no release because '
                         'its target is not inside a statement expression the jump is outside of (GNU C forbids jumping into one; C20 R20.14), so nothing is pushed at the target either; '
                         'computed gotos (`goto *p`) release nothing and are not covered']
     jumps = r033(cg, rep)
@@ -2060,6 +2154,7 @@ def run(P, rep, tier):
     label_records(rep, 'R03.3', jumps)
     if not jumps['njumps']:
         rep.undecided('R03.3', '%s:gen_stmt:ND_GOTO' % U, 'no jump to the label of a goto/break/continue was seen in the emitted code', where='%s:%d' % (U, cg.cu.fn('gen_stmt').line))
+    r03f_depth(cg, P, rep)
     r031(P, rep, cg.cat)
     r035(P, rep)
     r038(P, rep)
